@@ -496,7 +496,7 @@ func TestC01(t *testing.T) {
 	st := vh.NewStats("histories of Put/PutMany/Delete/Get/Get(Undef)/Has/GetSize/View/AllKeysChan on the real blockstore " +
 		"(all WriteThrough x NoPrefix combinations, with/without NewIdStore, with/without a Viewer below it) over a recording " +
 		"datastore; pool of 8 payloads (incl. empty, 1 byte, 130 bytes) x {CIDv0, v1 dag-pb, v1 raw, v1 raw blake2b-256, identity raw, identity dag-pb}; " +
-		"one third of the histories store dishonest blocks (bytes that do not belong to the CID); non-trivial = contains a delete and a read " +
+		"one third of the histories store dishonest blocks (bytes that do not belong to the CID); one sixth start from a datastore seeded with foreign keys (other spellings, undecodable, outside the namespace); non-trivial = contains a delete and a read " +
 		"through an alias CID of an earlier put; distinct by (config, ops)")
 	d := &dict{names: map[string]string{}}
 	p, cidDefs := buildPool(e, d)
@@ -589,7 +589,48 @@ func TestC01(t *testing.T) {
 		if dishonest {
 			kind = "dishonest"
 		}
-		emit(c, nil, genOps(e, p, c, l, dishonest), kind)
+		var seed [][2][]byte
+		if i%6 == 5 {
+			// a datastore that already holds entries the blockstore did not write: keys of pool blocks (as written by
+			// another blockstore instance), their lower-case spelling (the key reader is case-insensitive), keys that
+			// cannot be decoded, partial base32 groups, keys outside the namespace
+			kind = "seeded"
+			pre := "/blocks"
+			if c.noprefix {
+				pre = ""
+			}
+			for k := 1 + e.Rng.Intn(4); k > 0; k-- {
+				pc := p.all[e.Rng.Intn(len(p.all))]
+				good := "/" + strings.TrimPrefix(dsKey(pc.c), "/")
+				var key string
+				switch e.Rng.Intn(9) {
+				case 0, 1:
+					key = pre + good
+				case 2:
+					key = pre + strings.ToLower(good)
+				case 3:
+					key = pre + good[:len(good)-1-e.Rng.Intn(3)]
+				case 4:
+					key = pre + "/" + []string{"A", "AB", "ABC", "MZXW6", "MZXW6Y", "abc!", "0189", "AAAAAAAAA", "AB/CD", "=A"}[e.Rng.Intn(10)]
+				case 5:
+					key = "/other" + good
+				case 6:
+					key = "/blocksx" + good
+				case 7:
+					key = pre + good + "A"
+				default:
+					key = "/blocks" + good // inside "/blocks" even when the blockstore runs without prefix
+				}
+				dup := false
+				for _, kv := range seed {
+					dup = dup || string(kv[0]) == key
+				}
+				if !dup {
+					seed = append(seed, [2][]byte{[]byte(key), p.pays[e.Rng.Intn(len(p.pays))]})
+				}
+			}
+		}
+		emit(c, seed, genOps(e, p, c, l, dishonest), kind)
 	}
 	cs.Close()
 	st.Write(e)
